@@ -75,7 +75,7 @@ func c11ExecHand(sc c10Hand) string {
 			cur = &mm
 			cycles++
 			for dl := time.Now().Add(20 * time.Second); count("ARE") < cycles; time.Sleep(200 * time.Microsecond) {
-				if time.Now().After(dl) {
+				if deadlinePassed(dl) {
 					return fmt.Sprintf("step %d: the numbering changed to %d/%d, the stream did not complete a rebalance (callbacks %v)", i, step.M, step.T, hand.names())
 				}
 			}
